@@ -198,13 +198,8 @@ def plan(tier):
             ([Config(l, z, 'S') for l in langs], [('prng', 1), ('prng', 2)], 1, 8),
             ([Config(l, z, 'D') for l in langs], [('prng', 1), ('prng', 2), 'first', 'alt'], 0, 1),
         ]
-    pol = ['first', 'last', 'alt'] + [('prng', c) for c in range(1, 9)]
-    return [
-        ([Config(l, s, 'S', o) for l in langs for s in (z, (1, 1, 1, 1)) for o in ('asc', 'desc')], pol, 1, 8),
-        ([Config(l, z, 'S', 'asc', True) for l in langs], [('prng', 1), ('prng', 2)], 1, 8),
-        ([Config(l, z, 'D') for l in langs], [('prng', 1), ('prng', 2)], 1, 32),
-        ([Config(l, z, 'D') for l in langs], pol, 0, 1),
-    ]
+    from mc import plans
+    return plans.thorough(LANGS, 'medium')
 
 
 def run(tier, seed, jobs):
